@@ -5,6 +5,7 @@ import (
 	"go/token"
 	"go/types"
 	"math"
+	"math/big"
 
 	"golang.org/x/tools/go/ssa"
 
@@ -47,6 +48,17 @@ func (e *Engine) binopVals(st *State, op token.Token, a, b Val, t, ty, rt types.
 			out.Terms = []*smt.Term{c.Op("bvmul", s, x, y)}
 		case token.QUO, token.REM:
 			e.oblige(st, "div", "", c.Not(c.Eq(y, c.BVLit64(0, w))), pos, "division by zero")
+			if _, isConst := y.BVValue(); w == 64 && e.noAssume == 0 && !isConst || (w == 64 && e.noAssume == 0 && isConst) {
+				// 64-bit division circuits defeat the solvers; characterise quotient and remainder by
+				// x = q*y + r, |r| < |y|, sign(r) = sign(x) (exact and complete, cheap when y is a constant)
+				q, r := e.divMod(st, x, y, sg)
+				if op == token.QUO {
+					out.Terms = []*smt.Term{q}
+				} else {
+					out.Terms = []*smt.Term{r}
+				}
+				return out
+			}
 			name := map[bool]map[token.Token]string{true: {token.QUO: "bvsdiv", token.REM: "bvsrem"}, false: {token.QUO: "bvudiv", token.REM: "bvurem"}}[sg][op]
 			out.Terms = []*smt.Term{c.Op(name, s, x, y)}
 		case token.AND:
@@ -121,17 +133,17 @@ func (e *Engine) binopVals(st *State, op token.Token, a, b Val, t, ty, rt types.
 		x, y := a.Terms[0], b.Terms[0]
 		switch op {
 		case token.ADD:
-			r := c.App("str.cat", smt.Str, x, y)
+			r := c.App("gs.cat", smt.Str, x, y)
 			e.assume(st, c.Eq(e.strLen(r), c.Op("bvadd", smt.BV(64), e.strLen(x), e.strLen(y))))
 			out.Terms = []*smt.Term{r}
 		case token.LSS:
-			out.Terms = []*smt.Term{c.App("str.lt", smt.Bool, x, y)}
+			out.Terms = []*smt.Term{c.App("gs.lt", smt.Bool, x, y)}
 		case token.GTR:
-			out.Terms = []*smt.Term{c.App("str.lt", smt.Bool, y, x)}
+			out.Terms = []*smt.Term{c.App("gs.lt", smt.Bool, y, x)}
 		case token.LEQ:
-			out.Terms = []*smt.Term{c.Not(c.App("str.lt", smt.Bool, y, x))}
+			out.Terms = []*smt.Term{c.Not(c.App("gs.lt", smt.Bool, y, x))}
 		case token.GEQ:
-			out.Terms = []*smt.Term{c.Not(c.App("str.lt", smt.Bool, x, y))}
+			out.Terms = []*smt.Term{c.Not(c.App("gs.lt", smt.Bool, x, y))}
 		default:
 			panic(reject("string binop " + op.String()))
 		}
@@ -194,7 +206,12 @@ func (e *Engine) unop(f *frame, st *State, x *ssa.UnOp, pos string) Val {
 	switch x.Op {
 	case token.MUL:
 		e.nilCheck(st, a, pos, "nil pointer dereference")
-		return e.load(st, a, x.Type())
+		v := e.load(st, a, x.Type())
+		if a.Glob != nil && e.W.NonNilGlobals[a.Glob] && isInterface(x.Type()) {
+			e.assume(st, c.And(c.Not(c.Eq(v.Terms[0], c.IntLit(0))), c.Not(c.Eq(v.Terms[1], c.IntLit(0)))))
+			e.note("package-level error variables initialised with errors.New/fmt.Errorf and never reassigned are non-nil")
+		}
+		return v
 	case token.NOT:
 		return Val{Typ: x.Type(), Terms: []*smt.Term{c.Not(a.Terms[0])}}
 	case token.SUB:
@@ -216,6 +233,11 @@ func (e *Engine) convert(st *State, v Val, from, to types.Type, pos string) Val 
 	switch {
 	case isInteger(from) && isInteger(to):
 		out.Terms = []*smt.Term{c.Extend(v.Terms[0], bitWidth(to), isSigned(from))}
+		if e.CheckNarrow && e.quiet == 0 && e.inTopPackage() && (bitWidth(to) < bitWidth(from) || (isSigned(from) != isSigned(to) && !(isSigned(to) && bitWidth(to) > bitWidth(from)))) {
+			// value-changing integer conversions must be provably exact in functions under the C13 rule
+			e.oblige(st, "narrow", "", c.Eq(c.Extend(v.Terms[0], mathW, isSigned(from)), c.Extend(out.Terms[0], mathW, isSigned(to))), pos,
+				fmt.Sprintf("conversion %s -> %s preserves the mathematical value", typeStr(from), typeStr(to)))
+		}
 	case isInteger(from) && isFloat(to):
 		s := e.comps(to)[0]
 		op := "to_fp"
@@ -255,8 +277,8 @@ func (e *Engine) convert(st *State, v Val, from, to types.Type, pos string) Val 
 			name := elemName(el, 0)
 			as := smt.Array(smt.BV(64), smt.BV(32))
 			arr := e.heapArr(st, name, smt.Array(smt.Int, as))
-			st.Heap[name] = c.Store(arr, ref, c.App("str.runes", as, v.Terms[0]))
-			n := c.App("str.runecount", smt.BV(64), v.Terms[0])
+			st.Heap[name] = c.Store(arr, ref, c.App("gs.runes", as, v.Terms[0]))
+			n := c.App("gs.runecount", smt.BV(64), v.Terms[0])
 			e.assume(st, c.And(c.Op("bvsle", smt.Bool, c.BVLit64(0, 64), n), c.Op("bvsle", smt.Bool, n, e.strLen(v.Terms[0])), c.Op("bvsle", smt.Bool, e.strLen(v.Terms[0]), c.BVLit64(sizeBound, 64))))
 			out.Terms = []*smt.Term{ref, c.BVLit64(0, 64), n, n}
 			return out
@@ -267,20 +289,20 @@ func (e *Engine) convert(st *State, v Val, from, to types.Type, pos string) Val 
 		ref := e.newRef(st)
 		name := elemName(el, 0)
 		arr := e.heapArr(st, name, smt.Array(smt.Int, smt.Array(smt.BV(64), smt.BV(8))))
-		st.Heap[name] = c.Store(arr, ref, c.App("str.bytes", smt.Array(smt.BV(64), smt.BV(8)), v.Terms[0]))
+		st.Heap[name] = c.Store(arr, ref, c.App("gs.bytes", smt.Array(smt.BV(64), smt.BV(8)), v.Terms[0]))
 		ln := e.strLen(v.Terms[0])
 		e.assume(st, c.Op("bvsle", smt.Bool, c.BVLit64(0, 64), ln))
 		out.Terms = []*smt.Term{ref, c.BVLit64(0, 64), ln, ln}
 	case isSlice(from) && isString(to):
 		name := elemName(types.Typ[types.Uint8], 0)
 		arr := e.heapArr(st, name, smt.Array(smt.Int, smt.Array(smt.BV(64), smt.BV(8))))
-		s := c.App("str.of", smt.Str, c.Select(arr, v.Terms[0]), v.Terms[1], v.Terms[2])
+		s := c.App("gs.of", smt.Str, c.Select(arr, v.Terms[0]), v.Terms[1], v.Terms[2])
 		e.assume(st, c.Eq(e.strLen(s), v.Terms[2]))
 		out.Terms = []*smt.Term{s}
 	case isString(from) && isString(to):
 		out.Terms = v.Terms
 	case isInteger(from) && isString(to):
-		s := c.App("str.rune", smt.Str, c.Extend(v.Terms[0], 64, isSigned(from)))
+		s := c.App("gs.rune", smt.Str, c.Extend(v.Terms[0], 64, isSigned(from)))
 		out.Terms = []*smt.Term{s}
 	default:
 		// identical underlying types (e.g. named struct conversions)
@@ -460,7 +482,7 @@ func (e *Engine) lookup(f *frame, st *State, x *ssa.Lookup, pos string) Val {
 	if isString(x.X.Type()) {
 		idx := e.toIndex(f.get(x.Index), x.Index.Type())
 		e.oblige(st, "index", "", e.inBounds(idx, e.strLen(m.Terms[0])), pos, "string index in range")
-		return Val{Typ: x.Type(), Terms: []*smt.Term{c.App("str.at", smt.BV(8), m.Terms[0], idx)}}
+		return Val{Typ: x.Type(), Terms: []*smt.Term{c.App("gs.at", smt.BV(8), m.Terms[0], idx)}}
 	}
 	key := f.get(x.Index)
 	if len(key.Terms) != 1 {
@@ -557,4 +579,49 @@ func (e *Engine) rangeNext(f *frame, st *State, x *ssa.Next) Val {
 func isInvalid(t types.Type) bool {
 	b, ok := t.(*types.Basic)
 	return ok && b.Kind() == types.Invalid
+}
+
+// divMod introduces quotient and remainder of a 64-bit division by their defining equations.
+func (e *Engine) divMod(st *State, x, y *smt.Term, signed bool) (*smt.Term, *smt.Term) {
+	c := e.C
+	key := fmt.Sprintf("%d/%d/%v", x.ID(), y.ID(), signed)
+	if e.divCache == nil {
+		e.divCache = map[string][2]*smt.Term{}
+	}
+	if qr, ok := e.divCache[key]; ok {
+		return qr[0], qr[1]
+	}
+	q := c.Fresh("div.q", smt.BV(64))
+	r := c.Fresh("div.r", smt.BV(64))
+	const W = 130
+	ext := func(t *smt.Term) *smt.Term { return c.Extend(t, W, signed) }
+	s := smt.BV(W)
+	eq := c.Eq(ext(x), c.Op("bvadd", s, c.Op("bvmul", s, ext(q), ext(y)), ext(r)))
+	var fact *smt.Term
+	if signed {
+		z := c.BVLit64(0, 64)
+		abs := func(t *smt.Term) *smt.Term { // |t| as W-bit value
+			et := ext(t)
+			return c.Ite(c.Op("bvslt", smt.Bool, t, z), c.Op("bvneg", s, et), et)
+		}
+		sameSign := c.Or(c.Eq(r, z), c.Eq(c.Op("bvslt", smt.Bool, r, z), c.Op("bvslt", smt.Bool, x, z)))
+		small := c.Op("bvslt", smt.Bool, abs(r), abs(y))
+		minInt := c.BVLit(new(big.Int).Lsh(big.NewInt(1), 63), 64)
+		wrap := c.And(c.Eq(x, minInt), c.Eq(y, c.BVLit64(-1, 64)))
+		fact = c.Ite(wrap, c.And(c.Eq(q, minInt), c.Eq(r, z)), c.And(eq, sameSign, small))
+	} else {
+		fact = c.And(eq, c.Op("bvult", smt.Bool, r, y))
+	}
+	// the facts hold whenever y != 0 (division by zero panics before the result is used)
+	e.assumeGlobal(c.Implies(c.Not(c.Eq(y, c.BVLit64(0, 64))), fact))
+	e.divCache[key] = [2]*smt.Term{q, r}
+	return q, r
+}
+
+// inTopPackage: the instruction being executed belongs to the package of the function under verification.
+func (e *Engine) inTopPackage() bool {
+	if e.curFrame == nil || e.top == nil {
+		return true
+	}
+	return pkgPathOf(e.curFrame.fn) == pkgPathOf(e.top)
 }
